@@ -216,7 +216,9 @@ fn encode<'t, T>(
                         }
 
                         let mut pattern = String::new();
-                        pattern.push('[');
+                        // Classes are always case sensitive, regardless of any flags that
+                        // precede them (such flags otherwise leak from literals).
+                        pattern.push_str("(?-i:[");
                         if class.is_negated() {
                             pattern.push('^');
                             encode_class_archetypes(class, &mut pattern);
@@ -226,7 +228,7 @@ fn encode<'t, T>(
                             encode_class_archetypes(class, &mut pattern);
                             pattern.push_str(nsepexpr!("&&{0}"));
                         }
-                        pattern.push(']');
+                        pattern.push_str("])");
                         // TODO: The compiled `Regex` is discarded. Is there a way to check the
                         //       correctness of the expression but do less work (i.e., don't build a
                         //       complete `Regex`)?
